@@ -1006,7 +1006,7 @@ func writeEvidence(cfg checkCfg, seed uint64, st *Stats, batches int, wall float
 var checkConfigs = map[string]checkCfg{
 	"C02": {
 		prop: "C02", engine: "faultsweep", level: "fault_enumeration", checksPerBatch: 1, minBatches: 1, exhaustive: true,
-		rule: "the grid (built-in function discovered on a fresh global object, call or construct) x (one varying position among receiver / argument 1 / argument 2) x 16 value kinds (among them trap objects and trap functions whose valueOf/toString/toJSON/getters/body count invocations) x faults {none, throw at the 1st/2nd/3rd trap invocation, host-function panic, interrupt panic at the 1st/2nd trap invocation, stack depth limit 3..6} is enumerated completely (thorough adds all kind pairs); evaluations = cells executed. distinct_nontrivial = number of built-in functions whose whole slice of the grid was executed.",
+		rule: "the grid (built-in function discovered on a fresh global object, call or construct) x (one varying position among receiver / argument 1 / argument 2) x 40 value kinds (numeric extremes, hostile strings, wrappers, frozen/sparse/array-like/prototype-less objects, arguments, bound functions, regexps with negative lastIndex, trap objects and trap functions whose valueOf/toString/toJSON/getters/body count invocations) x faults {none, throw at the 1st/2nd/3rd trap invocation, host-function panic, interrupt panic at the 1st/2nd trap invocation, stack depth limit 3..6} is enumerated completely (quick adds all kind pairs for a seed-selected sixteenth of the surface, thorough for all of it), plus: every own/inherited property of an instance of each kind read/described/written/deleted (also through an inheriting object), uncaught throws and the Value/Object accessors on a value of each kind under every fault, all 3-step histories over 20 array/object operations, 41 self-recursive programs under limits 2..200, and two allocation probes in memory-capped children; evaluations = cells executed. distinct_nontrivial = number of built-in functions whose whole slice of the grid was executed.",
 		assumptions: []string{
 			"claimed slice only: fault containment; totality on arbitrary source text and the plain input grid beyond these 16 kinds are outside deterministic simulation",
 			"nothing is asserted about which value or error comes back, only that the API call returns, that only injected panics escape, and that the runtime is at rest and usable afterwards",
@@ -1016,7 +1016,7 @@ var checkConfigs = map[string]checkCfg{
 	},
 	"C04": {
 		prop: "C04", engine: "readerfault", level: "fault_enumeration", checksPerBatch: 6, minBatches: 16,
-		rule: "cases = generated program texts (workload generator, syntax zoo, interpreter fragments; <= 1500 bytes); for each text EVERY cut point n in [0,len] is delivered as a truncated stream through a simulated reader (1-byte / small / large / whole chunks, rune splits, (0,nil) reads, (n,EOF)) to parser.ParseFile and compared with parsing the same prefix as a string; run/compile/eval-level checks at statement boundaries and a sample of cuts; read errors after n bytes for every 4th n; whole-text chunkings through reader, []byte and *bytes.Buffer; every accepted tree is checked for spans and ast.Walk. evaluations = simulated deliveries. distinct_nontrivial = distinct (accepted tree hash | rejection message) outcomes over cut points strictly inside a text.",
+		rule: "cases = generated program texts (workload generator, syntax zoo, interpreter fragments; <= 1500 bytes); for each text EVERY cut point n in [0,len] is delivered as a truncated stream through a simulated reader (1-byte / small / large / whole chunks, rune splits, (0,nil) reads, (n,EOF)) to parser.ParseFile and compared with parsing the same prefix as a string; run/compile/eval-level checks at statement boundaries and a sample of cuts; read errors after n bytes for every 4th n; whole-text chunkings through reader, []byte and *bytes.Buffer; the same prefix as a later file of a FileSet; a third of the texts carry a construct that is invalid by construction and must be rejected by every route; every accepted tree is checked for spans and ast.Walk. evaluations = simulated deliveries. distinct_nontrivial = distinct (accepted tree hash | rejection message) outcomes over cut points strictly inside a text.",
 		assumptions: []string{
 			"claimed slice only: truncations of generated programs, any delivery of the bytes, read errors; 'arbitrary junk is rejected per the ES5 grammar' needs a grammar oracle and is outside deterministic simulation",
 			"oracles are differential against otto's own string route (no model of the grammar)",
@@ -1048,7 +1048,7 @@ var checkConfigs = map[string]checkCfg{
 	},
 	"C18": {
 		prop: "C18", engine: "stepsim", level: "fault_enumeration", checksPerBatch: 6, minBatches: 16,
-		rule: "cases = generated programs x (stack limit, channel capacity, host-function fault schedule); each case is run fault-free (with and without a channel) and then, in exhaustive mode, once per (step k in [0,n0]) x {noop, panic(error), panic(string)} interrupt, or in seeded mode under a drawn schedule of up to 4 interrupts/watchdogs of 7 kinds; evaluations counts simulated runs. distinct_nontrivial = number of distinct unwinding signatures (collapsed interpreter Go call stack at the moment the interrupt function was invoked x interrupt kind), counted only for interrupts actually delivered while the script was running.",
+		rule: "cases = generated programs x (stack limit, channel capacity, host-function fault schedule); each case is run fault-free (with and without a channel) and then, in exhaustive mode, once per (step k in [0,n0]) x {noop, panic(error), panic(string)} interrupt, or in seeded mode under a drawn schedule of up to 4 interrupts/watchdogs of 8 kinds (among them one that tightens the stack limit), plus a host-function panic at every host call of small programs; the first batch also enumerates the (23 recursion forms x limits 2..14) grid and the (forms x depth at which a host function tightens the limit x limit) grid; after every exit: a try/catch script, an endless loop under a fresh watchdog, the continuation program, store read-back and the depth probe; evaluations counts simulated runs. distinct_nontrivial = number of distinct unwinding signatures (collapsed interpreter Go call stack at the moment the interrupt function was invoked x interrupt kind), counted only for interrupts actually delivered while the script was running.",
 		assumptions: []string{
 			"interrupts can only be observed at evaluation steps (hook granularity); built-ins written in Go are atomic between their callbacks, which is also the only place otto polls",
 			"the hook sends on the real channel from the interpreter goroutine; the channel, the poll, panic propagation and unwinding are unmodified otto code",
